@@ -33,6 +33,10 @@ RULE = ("per format (qcow2, vmdk, vhdx, vhd, vdi, hds via their generators; vmta
         "VHD / VDI additionally a directed family on fixed bases (one dynamic + two fixed VHDs, two VDIs): EVERY size-like field of the footer, "
         "the dynamic header, the VDI header and the first / last BAT / block-map entry := each of {0, 1, 2, 511..513, old±1, 2·old, file size (+1, /512), "
         "2^16, 2^20, 2^24, 2^26, 2^28 (+512), 2^29, 2^30, 2^31−1, 2^31, 2^32−512, 2^32−1; 64-bit fields also 2^32 (+512), 2^40, 2^62, 2^63∓1, 2^64−512, 2^64−1}. "
+        "QCOW2 additionally directed structural mutations (gen_qcow2.struct_mutations over gen_qcow2.struct_bases: standard v2 / v3, extended L2, data file, backing file, "
+        "snapshot; every L1 entry, every kind of L2 entry and unused slot, header fields, snapshot-table entries: offset := 0 / EOF / past EOF / unaligned / self, flags "
+        "COPIED / ZERO / COMPRESSED toggled, sub-cluster bitmap := 0 / all-ones / alloc-without-zero / alloc-and-zero overlapping, allocation bits without host cluster, "
+        "compressed descriptors with sector count 0 / max) followed by reads that reach the mutated entry. "
         "Each case: open + reads at start / middle / end / whole (≤ 1 MiB) (+ listing / decoding for non-disk inputs). Expected: every call "
         "returns or raises within the watchdog, and tracemalloc's peak stays below 16 MiB + 64·(real input bytes: Python objects per table entry) + 4·(largest request). "
         "Non-trivial = a mutated (not pristine) input; distinct (family, mutation).")
@@ -331,6 +335,17 @@ def generate(seed, tier):
         add("qcow2", base=r, mut=["none"])
         for _ in range(14):
             add("qcow2", base=r, mut=gen_mutation(rng, {"img": files["img"]}))
+    # directed structural mutations (gen_qcow2.struct_mutations) of explicit base images (gen_qcow2.struct_bases: every kind of standard /
+    # extended L2 entry, both sides of an L2-table boundary, backing file, snapshot, data file): every L1 entry, every L2 entry and the
+    # unused slots next to them, the header and every snapshot-table entry get their edge values (offset 0 / end of file / past it /
+    # unaligned, flags toggled, bitmap words 0 / all-ones / alloc-without-zero / overlapping, allocation bits without host cluster,
+    # compressed descriptors with sector count 0 / max ...), each followed by reads that reach the mutated entry. quick: one entry per
+    # (base, table, kind of entry, mutation); thorough: every entry. Own random stream: the cases above stay what they were.
+    srng = random.Random(f"C11/qcow2-struct/{seed}/{tier}")
+    for name, r in gen_qcow2.struct_bases(srng, tier):
+        ms = gen_qcow2.struct_mutations(r)
+        for label, patches, reads in (gen_qcow2.struct_pick(srng, ms) if tier == "quick" else ms):
+            add("qcow2", base=r, mut=["patches", "img", patches, label], variant=["struct", name, label.split("]")[-1].lstrip(":")], reads=reads)
     # ---- bombs
     for fg in (128, 0, 1, 0x003FFFFFFFFFFFFF, 1 << 32, 127):
         for lba in (True, False):
@@ -573,8 +588,28 @@ def impl_run(case, built):
                     import gen_qcow2
                     t = built.t
                     bk = gen_qcow2.open_impl(t.backing_truth) if t.backing_truth else (t.backing_img.open() if t.backing_img is not None else None)
+                if case.get("reads"):
+                    # directed structural mutations of small images: a stalled run iterator is recognised after 10 s already (the
+                    # worker's alarm is re-armed to the shorter period; it raises the worker's own timeout)
+                    import signal
+                    if signal.getitimer(signal.ITIMER_REAL)[0] > 10.0:
+                        signal.setitimer(signal.ITIMER_REAL, 10.0)
                 q = QCow2(files["img"].open(), data_file=files["data"].open() if "data" in files else None, backing_file=bk)
                 notes["reads"], maxreq = _reads(q)
+                views = {0: q}
+                dr = []
+                for k, off, n in case.get("reads") or []:      # reads that reach the mutated table entry (active image / snapshot k-1)
+                    try:
+                        if k not in views:
+                            views[k] = q.snapshots[k - 1].open()
+                        views[k].seek(off)
+                        dr.append(len(views[k].read(n)))
+                    except Exception as e:  # noqa
+                        views.setdefault(k, None)
+                        dr.append(type(e).__name__)
+                    maxreq = max(maxreq, n)
+                if dr:
+                    notes["directed"] = dr
                 try:
                     for sn in q.snapshots[:4]:
                         r2, _ = _reads(sn.open())
